@@ -563,6 +563,9 @@ func nearMiss(text, old string, mode int) string {
 		case mode == 8 && (old[0] == '%' || old[0] == '@' || old[0] == '!'):
 			// a number that does not fit in 64 bits (for % and @: a name made of digits)
 			cand = old[:1] + "99999999999999999999"
+		case mode == 10 && len(old) >= 4 && old[1] == '"' && old[len(old)-1] == '"' && isUnnamedIdent(old[:1]+old[2:len(old)-1]):
+			// a quoted name made of digits, with a zero in front: "042" is not "42"
+			cand = old[:2] + "0" + old[2:]
 		case mode == 9 && (old[0] == '%' || old[0] == '@' || old[0] == '!'):
 			// 2^63: fits an unsigned but not a signed 64-bit number
 			cand = old[:1] + "9223372036854775808"
@@ -862,7 +865,7 @@ func c05Search() {
 				sum.Skipped["sites not sampled in the quick tier"]++
 				continue
 			}
-			for variant := 0; variant < 12; variant++ {
+			for variant := 0; variant < 13; variant++ {
 				cross, numeric := variant == 1, variant == 2
 				near := 0
 				if variant >= 3 {
@@ -903,7 +906,7 @@ func c05Search() {
 					sum.Counters["faulted inputs redirected to a one-character near miss of the original name"]++
 				}
 				if near >= 6 {
-					sum.Counters["faulted inputs redirected to "+map[int]string{6: "the NAME -0", 7: "the empty quoted name", 8: "a number beyond 64 bits", 9: "the number 2^63"}[near]]++
+					sum.Counters["faulted inputs redirected to "+map[int]string{6: "the NAME -0", 7: "the empty quoted name", 8: "a number beyond 64 bits", 9: "the number 2^63", 10: "a quoted all-digit name with a leading zero"}[near]]++
 				}
 				sum.Counters["fault kind "+siteClass(s.Kind)]++
 				sum.Counters["map-range visits in non-canonical order"] += o.nonIdentity
